@@ -1,11 +1,698 @@
-//! C07: fault enumeration (stub until the interpreter is validated).
-use crate::interp::Prop;
-use crate::runner::WorkerCfg;
-use serde_json::{json, Value};
+//! C07: fault enumeration. For a generated (state, operation) pair a panic is injected at every
+//! individual invocation of every user callback the operation performs.
 
-pub fn worker(_cfg: &WorkerCfg) -> Value {
-    json!({"prop": "C07", "evaluations": 0})
+use crate::elems::*;
+use crate::gen;
+use crate::instr::*;
+use crate::interp::*;
+use crate::ops::*;
+use crate::runner::{stats_json, WorkerCfg};
+use proptest::prelude::*;
+use proptest::test_runner::{Config, RngAlgorithm, RngSeed, TestCaseError, TestError, TestRng, TestRunner};
+use serde::{Deserialize, Serialize};
+use serde_json::{json, Value};
+use std::collections::{BTreeMap, BTreeSet};
+use std::panic::{catch_unwind, AssertUnwindSafe};
+
+#[derive(Clone, Debug, Serialize, Deserialize)]
+pub struct FCase {
+    pub case: Case,
+    /// scaled position of the target operation within case.ops
+    pub target: u16,
+    /// restrict to one fault (replay of a minimised failure)
+    #[serde(default)]
+    pub fault: Option<(usize, u32)>,
 }
-pub fn replay(_v: &Value, _prop: Prop) -> Value {
-    json!({"failed": false})
+
+fn targetable(op: &Op) -> bool {
+    matches!(
+        op,
+        Op::Insert { .. }
+            | Op::Get { .. }
+            | Op::GetMut { .. }
+            | Op::GetKeyValue { .. }
+            | Op::GetKeyValueMut { .. }
+            | Op::ContainsKey { .. }
+            | Op::Remove { .. }
+            | Op::RemoveEntry { .. }
+            | Op::Entry { .. }
+            | Op::RawEntryMut { .. }
+            | Op::RawEntry { .. }
+            | Op::Retain { .. }
+            | Op::DrainFilter { .. }
+            | Op::Reserve { follow: false, .. }
+            | Op::TryReserve { follow: false, .. }
+            | Op::ShrinkToFit { .. }
+            | Op::ShrinkTo { .. }
+            | Op::Extend { .. }
+            | Op::CloneTo { .. }
+            | Op::CloneFrom { .. }
+            | Op::EqCheck
+            | Op::SetPoint { .. }
+            | Op::SetRetain { .. }
+            | Op::SetDrainFilter { .. }
+            | Op::SetClone { .. }
+            | Op::Z(_)
+    )
+}
+
+/// which containers (bookkeeping indices 0..4, 4 = zero-sized) an op may modify
+fn touched(op: &Op) -> Vec<usize> {
+    match op {
+        Op::CloneTo { dst, src } | Op::CloneFrom { dst, src } => vec![(*dst & 1) as usize, (*src & 1) as usize],
+        Op::EqCheck => vec![0, 1],
+        Op::SetPoint { s, .. } | Op::SetRetain { s, .. } | Op::SetDrainFilter { s, .. } => vec![2 + (*s & 1) as usize],
+        Op::SetClone { dst, src, .. } => vec![2 + (*dst & 1) as usize, 2 + (*src & 1) as usize],
+        Op::Z(_) => vec![4],
+        Op::Insert { s, .. }
+        | Op::Get { s, .. }
+        | Op::GetMut { s, .. }
+        | Op::GetKeyValue { s, .. }
+        | Op::GetKeyValueMut { s, .. }
+        | Op::ContainsKey { s, .. }
+        | Op::Remove { s, .. }
+        | Op::RemoveEntry { s, .. }
+        | Op::Entry { s, .. }
+        | Op::RawEntryMut { s, .. }
+        | Op::RawEntry { s, .. }
+        | Op::Retain { s, .. }
+        | Op::DrainFilter { s, .. }
+        | Op::Reserve { s, .. }
+        | Op::TryReserve { s, .. }
+        | Op::ShrinkToFit { s }
+        | Op::ShrinkTo { s, .. }
+        | Op::Extend { s, .. } => vec![(*s & 1) as usize],
+        _ => vec![],
+    }
+}
+
+fn read_only(op: &Op) -> bool {
+    matches!(op, Op::Get { .. } | Op::GetKeyValue { .. } | Op::ContainsKey { .. } | Op::RawEntry { .. } | Op::EqCheck | Op::CloneTo { .. })
+}
+
+fn rehashing(op: &Op) -> bool {
+    matches!(op, Op::Reserve { .. } | Op::TryReserve { .. } | Op::ShrinkToFit { .. } | Op::ShrinkTo { .. } | Op::Extend { .. })
+}
+
+type Snap = BTreeMap<u32, ME>;
+
+struct Snaps {
+    maps: [Snap; 2],
+    sets: [BTreeMap<u32, u32>; 2],
+}
+
+fn snap<F: Fam>(ctx: &Ctx<F>) -> Snaps {
+    Snaps {
+        maps: [ctx.slots[0].model.clone(), ctx.slots[1].model.clone()],
+        sets: [ctx.sets[0].model.clone(), ctx.sets[1].model.clone()],
+    }
+}
+
+pub struct FaultFail {
+    pub fail: Fail,
+    pub kind: usize,
+    pub n: u32,
+}
+
+pub struct FOutcome {
+    pub stats: Stats,
+    pub faults: u64,
+    pub exhaustive: bool,
+    pub nontrivial: bool,
+    pub target_name: &'static str,
+    pub counts: [u32; N_KINDS],
+    pub fail: Option<FaultFail>,
+    /// the case failed without any fault (owned by another property)
+    pub foreign: Option<Fail>,
+}
+
+fn pick_target(fc: &FCase) -> Option<usize> {
+    let n = fc.case.ops.len();
+    if n == 0 {
+        return None;
+    }
+    let start = (fc.target as usize * n) >> 16;
+    (start..n).chain(0..start).find(|i| targetable(&fc.case.ops[*i]))
+}
+
+fn fault_indices(count: u32) -> (Vec<u32>, bool) {
+    if count <= 64 {
+        ((1..=count).collect(), true)
+    } else {
+        let mut v: Vec<u32> = (1..=24).collect();
+        v.extend(count - 23..=count);
+        let span = count - 48;
+        for j in 0..16u32 {
+            v.push(25 + (j * span) / 16);
+        }
+        v.sort_unstable();
+        v.dedup();
+        (v, false)
+    }
+}
+
+pub fn run_fcase(fc: &FCase, big: bool) -> FOutcome {
+    match fc.case.family {
+        Family::P => run_fcase_f::<FamP>(fc, big),
+        Family::T => run_fcase_f::<FamT>(fc, big),
+    }
+}
+
+fn prefix<F: Fam>(case: &Case, t: usize, big: bool) -> Result<Ctx<F>, Fail> {
+    fuse_off();
+    let mut ctx: Ctx<F> = Ctx::new(case);
+    ctx.big = big;
+    for (i, op) in case.ops[..t].iter().enumerate() {
+        if let Err(f) = ctx.step(i, op) {
+            std::mem::forget(ctx);
+            return Err(f);
+        }
+    }
+    Ok(ctx)
+}
+
+pub fn run_fcase_f<F: Fam>(fc: &FCase, big: bool) -> FOutcome {
+    let mut out = FOutcome {
+        stats: Stats::default(),
+        faults: 0,
+        exhaustive: true,
+        nontrivial: false,
+        target_name: "none",
+        counts: [0; N_KINDS],
+        fail: None,
+        foreign: None,
+    };
+    let t = match pick_target(fc) {
+        Some(t) => t,
+        None => return out,
+    };
+    let case = &fc.case;
+    let op = &case.ops[t];
+    out.target_name = op.name();
+    // ---- count run (also yields the state the op would have produced)
+    let mut ctx = match prefix::<F>(case, t, big) {
+        Ok(c) => c,
+        Err(f) => {
+            out.foreign = Some(f);
+            return out;
+        }
+    };
+    for s in touched(op) {
+        if s < 4 && ctx.st(s).l() > 0 {
+            out.nontrivial = true;
+        }
+        if s == 4 && (ctx.z.maps[0].verif_state().old.map_or(false, |o| o.len > 0) || ctx.z.set.verif_state().old.map_or(false, |o| o.len > 0)) {
+            out.nontrivial = true;
+        }
+    }
+    fuse_count_mode();
+    ctx.arm = Some((0, u32::MAX));
+    let r = catch_unwind(AssertUnwindSafe(|| ctx.step(t, op)));
+    let counts = fuse_counts();
+    fuse_off();
+    ctx.arm = None;
+    out.counts = counts;
+    // a forgotten drain_filter that is interrupted by a panic is *dropped* while unwinding, which
+    // removes every remaining match: the state to compare with is that of the dropped variant
+    let dropped_variant = match op {
+        Op::DrainFilter { s, pred, mutate, take, forget: true } => Some(Op::DrainFilter { s: *s, pred: *pred, mutate: *mutate, take: *take, forget: false }),
+        Op::SetDrainFilter { s, pred, take, forget: true } => Some(Op::SetDrainFilter { s: *s, pred: *pred, take: *take, forget: false }),
+        _ => None,
+    };
+    if let (Some(op2), Ok(Ok(()))) = (&dropped_variant, &r) {
+        let _ = ctx.finish();
+        ctx = match prefix::<F>(case, t, big) {
+            Ok(c) => c,
+            Err(f) => {
+                out.foreign = Some(f);
+                return out;
+            }
+        };
+        if let Err(f) = ctx.step(t, op2) {
+            out.foreign = Some(f);
+            std::mem::forget(ctx);
+            return out;
+        }
+    }
+    let post = match r {
+        Ok(Ok(())) => snap(&ctx),
+        Ok(Err(f)) => {
+            out.foreign = Some(f);
+            std::mem::forget(ctx);
+            return out;
+        }
+        Err(_) => {
+            std::mem::forget(ctx);
+            return out;
+        }
+    };
+    out.stats = ctx.stats.clone();
+    // the same suffix without any fault: a failure here is not caused by a fault (it belongs to
+    // whichever property owns it), so this (state, op) pair is not used
+    {
+        let end = (t + 1 + 10).min(case.ops.len());
+        for (i, op2) in case.ops[t + 1..end].iter().enumerate() {
+            if let Err(f) = ctx.step(t + 1 + i, op2) {
+                out.foreign = Some(f);
+                std::mem::forget(ctx);
+                return out;
+            }
+        }
+        if let Err(f) = ctx.finish() {
+            out.foreign = Some(f);
+            return out;
+        }
+    }
+
+    // ---- one run per (kind, n)
+    for kind in 0..N_KINDS {
+        let (idx, exhaustive) = fault_indices(counts[kind]);
+        out.exhaustive &= exhaustive;
+        for n in idx {
+            if let Some((fk, fnn)) = fc.fault {
+                if fk != kind || fnn != n {
+                    continue;
+                }
+            }
+            out.faults += 1;
+            if let Some(fail) = one_fault::<F>(case, t, kind, n, &post, big) {
+                out.fail = Some(FaultFail { fail, kind, n });
+                return out;
+            }
+        }
+    }
+    out
+}
+
+fn one_fault<F: Fam>(case: &Case, t: usize, kind: usize, n: u32, post: &Snaps, big: bool) -> Option<Fail> {
+    let op = &case.ops[t];
+    let mut ctx = match prefix::<F>(case, t, big) {
+        Ok(c) => c,
+        Err(_) => return None,
+    };
+    let pre = snap(&ctx);
+    let zpre = (ctx.z.counts, ctx.z.set_count);
+    fuse_arm(kind, n);
+    ctx.arm = Some((kind, n));
+    let prevq = panic_quiet(true);
+    let r = catch_unwind(AssertUnwindSafe(|| ctx.step(t, op)));
+    panic_quiet(prevq);
+    let fired = fuse_fired();
+    let culprit = fuse_culprit();
+    fuse_off();
+    ctx.arm = None;
+    hlog_stop();
+    let injected = match r {
+        Ok(Ok(())) => false,
+        Ok(Err(f)) => {
+            // failed without the fault reaching us: not a fault outcome
+            std::mem::forget(ctx);
+            let _ = f;
+            return None;
+        }
+        Err(payload) => {
+            if !payload.is::<FuseMarker>() {
+                let (msg, loc) = take_last_panic().unwrap_or_default();
+                ctx.post_fault = true;
+                let f = ctx.mkfail(vec![C07], "foreign-panic-during-fault", format!("a different panic escaped while a fault was armed: {} at {}", msg, norm_loc(&loc)), format!("{} @ {}", norm_msg(&msg), norm_loc(&loc)));
+                std::mem::forget(ctx);
+                return Some(f);
+            }
+            true
+        }
+    };
+    if !injected && !fired {
+        // fewer callbacks than in the count run: cannot happen for deterministic cases
+        let _ = ctx.finish();
+        return None;
+    }
+    ctx.post_fault = true;
+    ctx.stats.faults += 1;
+    let res = after_fault::<F>(&mut ctx, case, t, kind, culprit, &pre, post, zpre, injected);
+    match res {
+        Err(f) => {
+            std::mem::forget(ctx);
+            Some(f)
+        }
+        Ok(()) => {
+            // suffix: later operations behave normally
+            let end = (t + 1 + 10).min(case.ops.len());
+            for (i, op2) in case.ops[t + 1..end].iter().enumerate() {
+                if let Err(f) = ctx.step(t + 1 + i, op2) {
+                    std::mem::forget(ctx);
+                    return Some(f);
+                }
+            }
+            match ctx.finish() {
+                Ok(_) => None,
+                Err(f) => Some(f),
+            }
+        }
+    }
+}
+
+fn after_fault<F: Fam>(
+    ctx: &mut Ctx<F>,
+    case: &Case,
+    t: usize,
+    kind: usize,
+    culprit: (u32, u32, u32, u32),
+    pre: &Snaps,
+    post: &Snaps,
+    zpre: ([usize; 2], usize),
+    injected: bool,
+) -> Result<(), Fail> {
+    let op = &case.ops[t];
+    ctx.op_index = t;
+    ctx.op_name = op.name();
+    let kname = KIND_NAMES[kind];
+    // nothing dropped twice, nothing used after drop
+    ctx.ledger_check(&[])?;
+    let culprits: BTreeSet<u32> = [culprit.0, culprit.2].into_iter().collect();
+    let clone_from_dst = match op {
+        Op::CloneFrom { dst, .. } => Some((*dst & 1) as usize),
+        Op::SetClone { dst, from: true, .. } => Some(2 + (*dst & 1) as usize),
+        _ => None,
+    };
+    for s in 0..4usize {
+        let st = ctx.st(s);
+        if let Some(o) = st.hook.old {
+            if o.cursor_remaining != o.len {
+                fail!(ctx, [C07], "cursor-desync", "after a panic in {} #{}: cached cursor believes {} elements remain, old table holds {}", kname, culprit.1, o.cursor_remaining, o.len);
+            }
+        }
+        if st.cap < st.len {
+            fail!(ctx, [C07], "capacity-below-len", "after a panic in {}: capacity() = {} < len() = {}", kname, st.cap, st.len);
+        }
+        if st.len != st.hook.main_len + st.l() {
+            fail!(ctx, [C07], "len-split", "after a panic in {}: len() = {} but tables hold {} + {}", kname, st.len, st.hook.main_len, st.l());
+        }
+        let is_touched = touched(op).contains(&s);
+        if s < 2 {
+            let actual = ctx.actual_contents(s);
+            if actual.len() != st.len {
+                fail!(ctx, [C07], "len-vs-iter", "after a panic in {}: len() = {} but iter() yields {}", kname, st.len, actual.len());
+            }
+            let mut seen = BTreeSet::new();
+            for (k, _) in &actual {
+                if !seen.insert(*k) {
+                    fail!(ctx, [C07], "duplicate-key", "after a panic in {}: key {} is stored twice", kname, k);
+                }
+            }
+            ctx.ledger_check(&[])?;
+            let amap: Snap = actual.iter().cloned().collect();
+            if Some(s) == clone_from_dst {
+                // unspecified contents, only memory safety: empty it and go on
+                let (_, _obs) = ctx.observe(s, false, &[], |m| m.clear())?;
+                ctx.slots[s].model.clear();
+                let live = (ctx.st(s).hook.main_buckets > 1) as i64;
+                let vh = ctx.meta[s].vh;
+                ctx.meta[s] = Meta::new(vh, live);
+                // the destination may have adopted the source's hasher or kept its own: find out
+                continue;
+            }
+            if !is_touched || read_only(op) {
+                if amap != pre.maps[s] {
+                    fail!(ctx, [C07], "changed-by-panic", "after a panic in {} during {}: map {} changed although the operation {} it", kname, op.name(), s, if is_touched { "only reads" } else { "does not touch" });
+                }
+            } else {
+                for (k, e) in &amap {
+                    let a = pre.maps[s].get(k);
+                    let b = post.maps[s].get(k);
+                    if a.is_none() && b.is_none() && legit_for(*k).is_empty() {
+                        fail!(ctx, [C07], "illegitimate-element", "after a panic in {}: key {} is in the map but was neither there before nor would the operation have added it", kname, k);
+                    }
+                    let mid = legit_for(*k);
+                    let ok_kid = a.map_or(false, |x| x.kid == e.kid) || b.map_or(false, |x| x.kid == e.kid) || mid.iter().any(|x| x.kid == e.kid);
+                    let ok_vid = a.map_or(false, |x| x.vid == e.vid) || b.map_or(false, |x| x.vid == e.vid) || mid.iter().any(|x| x.vid == e.vid);
+                    let ok_v = a.map_or(false, |x| x.v == e.v) || b.map_or(false, |x| x.v == e.v) || mid.iter().any(|x| x.v == e.v);
+                    if !(ok_kid && ok_vid && ok_v) {
+                        fail!(ctx, [C07], "illegitimate-value", "after a panic in {}: key {} holds {:?}; before {:?}, completed operation {:?}", kname, k, e, a, b);
+                    }
+                }
+                let any_loss_ok = kind == K_HASH && rehashing(op);
+                if !any_loss_ok {
+                    for (k, _) in pre.maps[s].iter() {
+                        if post.maps[s].contains_key(k) && !amap.contains_key(k) && !culprits.contains(k) && !legit_absent_ok(*k) {
+                            fail!(ctx, [C07], "lost-element", "after a panic in {} (handed key {} / {}): key {} was lost although it was not the element handed to the panicking callback", kname, culprit.0, culprit.2, k);
+                        }
+                    }
+                }
+            }
+            // every element is found by get, with the same value object
+            ctx.slots[s].model = amap;
+            let live = (st.hook.main_buckets > 1) as i64 + st.hook.old.is_some() as i64;
+            let vh = ctx.meta[s].vh;
+            ctx.meta[s] = Meta::new(vh, live);
+            ctx.meta[s].linger_ok = st.hook.old.map_or(false, |o| o.len == 0);
+            ctx.since_full[s] = 0;
+            ctx.full_check(s, &[C07])?;
+        } else {
+            let si = s - 2;
+            let mut actual: Vec<(u32, u32)> = ctx.sets[si].set.iter().map(|k| (k.k(), k.id())).collect();
+            actual.sort_unstable();
+            if actual.len() != st.len || actual.windows(2).any(|w| w[0].0 == w[1].0) {
+                fail!(ctx, [C07], "len-vs-iter", "after a panic in {}: set len() = {}, iter() yields {} (duplicates?)", kname, st.len, actual.len());
+            }
+            ctx.ledger_check(&[])?;
+            let amap: BTreeMap<u32, u32> = actual.into_iter().collect();
+            if Some(s) == clone_from_dst {
+                let (_, _obs) = ctx.observe_set(si, &[], |m| m.clear())?;
+                ctx.sets[si].model.clear();
+                let live = (ctx.st(s).hook.main_buckets > 1) as i64;
+                let vh = ctx.meta[s].vh;
+                ctx.meta[s] = Meta::new(vh, live);
+                continue;
+            }
+            if !is_touched {
+                if amap != pre.sets[si] {
+                    fail!(ctx, [C07], "changed-by-panic", "after a panic in {} during {}: untouched set {} changed", kname, op.name(), si);
+                }
+            } else {
+                for (k, id) in &amap {
+                    let a = pre.sets[si].get(k);
+                    let b = post.sets[si].get(k);
+                    if a != Some(id) && b != Some(id) {
+                        fail!(ctx, [C07], "illegitimate-element", "after a panic in {}: set element {} (id {}) is neither the one from before ({:?}) nor the one the operation would have stored ({:?})", kname, k, id, a, b);
+                    }
+                    if a.is_none() && b.is_none() {
+                        fail!(ctx, [C07], "illegitimate-element", "after a panic in {}: set element {} appeared from nowhere", kname, k);
+                    }
+                }
+                for (k, _) in pre.sets[si].iter() {
+                    if post.sets[si].contains_key(k) && !amap.contains_key(k) && !culprits.contains(k) {
+                        fail!(ctx, [C07], "lost-element", "after a panic in {}: set element {} was lost although it was not handed to the panicking callback", kname, k);
+                    }
+                }
+            }
+            ctx.sets[si].model = amap;
+            let live = (st.hook.main_buckets > 1) as i64 + st.hook.old.is_some() as i64;
+            let vh = ctx.meta[s].vh;
+            ctx.meta[s] = Meta::new(vh, live);
+            ctx.meta[s].linger_ok = st.hook.old.map_or(false, |o| o.len == 0);
+            ctx.full_check_set(si, &[C07])?;
+        }
+    }
+    // zero-sized collections: re-synchronise the counts, then the usual consistency check
+    {
+        let lens = [ctx.z.maps[0].len(), ctx.z.maps[1].len()];
+        let sl = ctx.z.set.len();
+        if matches!(op, Op::Z(_)) {
+            // at most one element may be lost (the one handed to the callback), none invented
+            let before = zpre.0[0] + zpre.0[1] + zpre.1;
+            let after = lens[0] + lens[1] + sl;
+            if !matches!(op, Op::Z(crate::zst::ZOp::CloneTo) | Op::Z(crate::zst::ZOp::CloneFrom) | Op::Z(crate::zst::ZOp::Dup(_)) | Op::Z(crate::zst::ZOp::Trigger) | Op::Z(crate::zst::ZOp::Retain(..)) | Op::Z(crate::zst::ZOp::DrainFilter(..)) | Op::Z(crate::zst::ZOp::Reserve(_)) | Op::Z(crate::zst::ZOp::TryReserve(_)) | Op::Z(crate::zst::ZOp::ShrinkToFit) | Op::Z(crate::zst::ZOp::ShrinkTo(_)) | Op::Z(crate::zst::ZOp::SetReserve(_)) | Op::Z(crate::zst::ZOp::SetShrink))
+                && (after + 1 < before || after > before + 1)
+            {
+                fail!(ctx, [C07], "lost-element", "after a panic in {}: zero-sized collections went from {} to {} elements", kname, before, after);
+            }
+        } else if lens != zpre.0 || sl != zpre.1 {
+            fail!(ctx, [C07], "changed-by-panic", "after a panic in {}: untouched zero-sized collections changed", kname);
+        }
+        ctx.z.counts = lens;
+        ctx.z.set_count = sl;
+        // objects dropped or leaked by the interrupted call are not accounted for any more
+        ctx.z.no_leak_check = true;
+        if ctx.z.used {
+            ctx.do_z(&crate::zst::ZOp::Get)?;
+        }
+    }
+    let _ = injected;
+    Ok(())
+}
+
+// ---------------------------------------------------------------------------------------------
+// worker
+// ---------------------------------------------------------------------------------------------
+
+pub fn fcase_strategy(thorough: bool) -> BoxedStrategy<FCase> {
+    let mut p = gen::profile(C07, thorough);
+    // user-code-heavy operations
+    p.w.retain = 8;
+    p.w.drain_filter = 8;
+    p.w.entry = 14;
+    p.w.rawmut = 10;
+    p.w.reserve = 6;
+    p.w.shrink = 5;
+    p.w.clone = 8;
+    p.w.extend = 5;
+    p.w.eq = 3;
+    p.w.set_point = 6;
+    p.w.set_retain = 2;
+    p.w.set_drain_filter = 2;
+    p.w.set_clone = 2;
+    p.w.set_misc = 2;
+    p.w.z = 8;
+    p.w.insert_many = 1;
+    p.w.remove_many = 0;
+    p.w.remove_all = 0;
+    p.w.churn = 0;
+    p.w.fill = 1;
+    p.w.probe = 0;
+    p.w.from_iter = 0;
+    p.w.with_cap = 0;
+    (gen::case_strategy(&p), 20000u16..=65535).prop_map(|(case, target)| FCase { case, target, fault: None }).boxed()
+}
+
+pub fn worker(cfg: &WorkerCfg) -> Value {
+    let strat = fcase_strategy(cfg.thorough);
+    let mut seed_bytes = [0u8; 32];
+    let s = splitmix(cfg.seed ^ 0xFA07_0000);
+    for i in 0..4 {
+        seed_bytes[i * 8..i * 8 + 8].copy_from_slice(&splitmix(s.wrapping_add(i as u64)).to_le_bytes());
+    }
+    let config = Config { cases: cfg.cases, failure_persistence: None, max_shrink_iters: 400, rng_seed: RngSeed::Fixed(s), ..Config::default() };
+    let rng = TestRng::from_seed(RngAlgorithm::ChaCha, &seed_bytes);
+    let mut runner = TestRunner::new_with_rng(config, rng);
+    struct Acc {
+        total: Stats,
+        cases: u64,
+        faults: u64,
+        exhaustive_cases: u64,
+        nontrivial: BTreeSet<u64>,
+        samples: Vec<Value>,
+        by_target: BTreeMap<&'static str, u64>,
+        by_kind: [u64; N_KINDS],
+        foreign: Vec<String>,
+        foreign_n: u64,
+        failing: bool,
+        known_hits: BTreeSet<String>,
+    }
+    let acc = std::cell::RefCell::new(Acc {
+        total: Stats::default(),
+        cases: 0,
+        faults: 0,
+        exhaustive_cases: 0,
+        nontrivial: BTreeSet::new(),
+        samples: Vec::new(),
+        by_target: BTreeMap::new(),
+        by_kind: [0; N_KINDS],
+        foreign: Vec::new(),
+        foreign_n: 0,
+        failing: false,
+        known_hits: BTreeSet::new(),
+    });
+    let big = cfg.thorough;
+    let known = cfg.known.clone();
+    let current = cfg.current.clone();
+    let result = runner.run(&strat, |fc| {
+        if let Some(p) = &current {
+            let _ = std::fs::write(p, serde_json::to_string(&fc).unwrap_or_default());
+        }
+        let out = run_fcase(&fc, big);
+        let mut a = acc.borrow_mut();
+        if !a.failing {
+            a.cases += 1;
+            a.faults += out.faults;
+            a.total.merge(&out.stats);
+            a.total.faults += out.faults;
+            if out.exhaustive {
+                a.exhaustive_cases += 1;
+            }
+            *a.by_target.entry(out.target_name).or_insert(0) += out.faults;
+            for k in 0..N_KINDS {
+                a.by_kind[k] += out.counts[k] as u64;
+            }
+            if out.nontrivial && out.faults > 0 {
+                a.nontrivial.insert(fc.case.hash64() ^ fc.target as u64);
+            }
+            if a.samples.len() < 3 && out.faults > 0 {
+                a.samples.push(json!({"target_op": out.target_name, "callbacks_counted": {"hash": out.counts[0], "eq": out.counts[1], "clone": out.counts[2], "closure": out.counts[3], "value_eq": out.counts[4]}, "faults_injected": out.faults, "history": fc.case.render(10)}));
+            }
+            if let Some(f) = &out.foreign {
+                a.foreign_n += 1;
+                if a.foreign.len() < 5 {
+                    a.foreign.push(f.describe());
+                }
+            }
+        }
+        if let Some(ff) = out.fail {
+            if known.iter().any(|k| *k == ff.fail.signature()) {
+                if !a.failing {
+                    a.total.excluded_known += 1;
+                    a.known_hits.insert(ff.fail.signature());
+                }
+                return Ok(());
+            }
+            a.failing = true;
+            return Err(TestCaseError::fail(ff.fail.describe()));
+        }
+        Ok(())
+    });
+    let a = acc.into_inner();
+    let mut violation = Value::Null;
+    if let Err(e) = result {
+        match e {
+            TestError::Fail(reason, fc) => {
+                let out = run_fcase(&fc, big);
+                let (desc, sig, fault) = match &out.fail {
+                    Some(ff) => (format!("fault: panic in {} invocation #{} of the {} at op#{}: {}", KIND_NAMES[ff.kind], ff.n, out.target_name, pick_target(&fc).unwrap_or(0), ff.fail.describe()), ff.fail.signature(), Some((ff.kind, ff.n))),
+                    None => (reason.message().to_string(), String::new(), None),
+                };
+                let mut fc2 = fc.clone();
+                fc2.fault = fault;
+                violation = json!({
+                    "case": serde_json::to_value(&fc2.case).unwrap(),
+                    "target": fc2.target,
+                    "fault": fc2.fault,
+                    "describe": desc,
+                    "signature": sig,
+                    "rendered": fc.case.render(60),
+                });
+            }
+            TestError::Abort(reason) => violation = json!({"abort": reason.message().to_string()}),
+        }
+    }
+    let mut st = stats_json(&a.total);
+    st["faults_by_target_op"] = json!(a.by_target);
+    st["callbacks_counted_by_kind"] = json!({"hash": a.by_kind[0], "eq": a.by_kind[1], "clone": a.by_kind[2], "closure": a.by_kind[3], "value_eq": a.by_kind[4]});
+    st["state_op_pairs"] = json!(a.cases);
+    st["state_op_pairs_enumerated_exhaustively"] = json!(a.exhaustive_cases);
+    json!({
+        "prop": "C07",
+        "evaluations": a.faults,
+        "nontrivial_hashes": a.nontrivial.iter().map(|h| format!("{:016x}", h)).collect::<Vec<_>>(),
+        "samples": a.samples,
+        "first_nontrivial": Value::Null,
+        "stats": st,
+        "foreign_failures": a.foreign_n,
+        "foreign_examples": a.foreign,
+        "known_hits": a.known_hits.into_iter().collect::<Vec<_>>(),
+        "violation": violation,
+    })
+}
+
+pub fn replay(v: &Value, prop: Prop) -> Value {
+    let case: Case = match serde_json::from_value(v.get("case").cloned().unwrap_or(Value::Null)) {
+        Ok(c) => c,
+        Err(e) => return json!({"failed": false, "error": e.to_string()}),
+    };
+    let target = v.get("target").and_then(|t| t.as_u64()).unwrap_or(0) as u16;
+    let fault = v.get("fault").and_then(|f| serde_json::from_value::<Option<(usize, u32)>>(f.clone()).ok()).flatten();
+    let fc = FCase { case, target, fault };
+    let out = run_fcase(&fc, false);
+    match out.fail {
+        Some(ff) => json!({"failed": true, "owns": ff.fail.has(prop), "tags": ff.fail.tags.iter().map(|t| t.name()).collect::<Vec<_>>(), "describe": format!("panic in {} invocation #{} of {}: {}", KIND_NAMES[ff.kind], ff.n, out.target_name, ff.fail.describe()), "signature": ff.fail.signature()}),
+        None => json!({"failed": false, "faults": out.faults, "target": out.target_name}),
+    }
 }
